@@ -513,12 +513,17 @@ theorem socCreate_ok (F : TFacts) (cfg : CbConfig) (a : J) : LockOK re aw ad [] 
   · lk_auto
   · intro _; exact Lk.bind (wrappedAfter_ok _ _ _ _) fun _ => Lk.pure' _
 
+theorem socUpdateOne_ok (F : TFacts) (raw : J) (idx : Nat) (id : Iri) (j : J) : LockOK re aw ad [] (socUpdateOne F raw idx id j) := by
+  unfold socUpdateOne
+  lk_auto
+
 theorem socUpdate_ok (F : TFacts) (cfg : CbConfig) (raw a : J) : LockOK re aw ad [] (socUpdate F cfg raw a) := by
   unfold socUpdate
   apply Lk.bind (requireObject_ok _ _); intro op
   apply Lk.bind (Lk.idsM _ _); intro ids
   apply Lk.bind
-  · lk_auto
+  · apply Lk.forM; intro x
+    exact socUpdateOne_ok _ _ _ _ _
   · intro _; exact wrappedAfter_ok _ _ _ _
 
 theorem socDelete_ok (F : TFacts) (cfg : CbConfig) (a : J) : LockOK re aw ad [] (socDelete F cfg a) := by
